@@ -38,6 +38,7 @@ type Obligation struct {
 	Relaxed string
 	Sliced  string
 	NoRetry bool // listed known finding: expected to stay undischarged
+	Support bool // obligation of a callee's clause tagged for other properties, included because a selected proof relies on it
 	Output  string
 	replay  *replayPlan
 	// consistency obligation (kind "consistency"): the hypotheses after applying an assumed contract must not be
@@ -84,6 +85,7 @@ type Frame struct {
 	props    []string
 	safety   bool
 	oblSeen  map[string]int
+	used     map[string]bool // contracts applied at call sites of this (root) frame: the callees its proof relies on
 	countDefs map[string]bool
 	nilMapDone map[int]bool
 	sitePC    map[ssa.Instruction]*Term
